@@ -76,11 +76,13 @@ VcsArgs ==
       schema |-> [kind |-> "preset", fam |-> fam, suffix |-> sfx, sch |-> FullTier, order |-> DefaultOrder] ]
     : s \in {1, 2, 3}, bpx \in BOOLEAN, vc \in VcsChoices, fam \in {"standard", "calver"}, sfx \in {"", "-no-context", "-context", "-base-prerelease"} }
 
-\* ---- mode "order": custom precedence orders (permutations, and one with levels left out) ----
+\* ---- mode "order": custom precedence orders (permutations, some with levels left out, the empty one) ----
 Orders == << DefaultOrder,
              <<"Build", "ExtraCore", "Dev", "Post", "PreReleaseNum", "PreReleaseLabel", "Core", "Patch", "Minor", "Major", "Epoch">>,
              <<"Major", "Minor", "Patch", "Epoch", "Post", "Dev", "PreReleaseLabel", "PreReleaseNum", "Core", "ExtraCore", "Build">>,
-             <<"Patch", "Major", "Core", "PreReleaseNum", "Dev">> >>
+             <<"Patch", "Major", "Core", "PreReleaseNum", "Dev">>,
+             <<>>,                       \* an explicitly empty order: no level is processed at all
+             <<"Minor">> >>
 OrderArgs ==
   { [ src |-> SrcNone, hasTag |-> TRUE, tag |-> Starts[s],
       ov |-> ( [f \in {Fields[i] : i \in 1..7} |-> IF ch[f] = 1 THEN OvVal(f) ELSE NONE] @@ [label |-> ""] ),
